@@ -129,6 +129,20 @@ class InlineTranslator:
             new_elements.append(elem.update(terms=new_terms, condition=transformed + other_conditions))
         return new_elements
 
+    @staticmethod
+    def _nonnegative_weights(agg: AST) -> bool:
+        """true if every element of the aggregate has a non-negative number as weight"""
+        for elem in agg.elements:
+            weight = elem.terms[0] if elem.terms else None
+            if (
+                weight is None
+                or weight.ast_type != ASTType.SymbolicTerm
+                or weight.symbol.type != SymbolType.Number
+                or weight.symbol.number < 0
+            ):
+                return False
+        return True
+
     def inline_body_aggregate(self, rule: AST, atom: AST, unique_vars: UniqueVariables) -> AST:
         """inline rule into this body aggregate atom"""
         # pylint: disable=too-many-branches
@@ -161,16 +175,12 @@ class InlineTranslator:
             if atom.function not in good[agg.function]:
                 return atom
             # an inner #sum+ ignores negative weights, an outer #sum would count them
-            if agg.function == AggregateFunction.SumPlus and atom.function == AggregateFunction.Sum:
-                for elem in agg.elements:
-                    weight = elem.terms[0] if elem.terms else None
-                    if (
-                        weight is None
-                        or weight.ast_type != ASTType.SymbolicTerm
-                        or weight.symbol.type != SymbolType.Number
-                        or weight.symbol.number < 0
-                    ):
-                        return atom
+            if (
+                agg.function == AggregateFunction.SumPlus
+                and atom.function == AggregateFunction.Sum
+                and not self._nonnegative_weights(agg)
+            ):
+                return atom
             agga = AggAnalytics(agg)
             # result is actually used in head
             for hv_pos, hv in enumerate(hatom.symbol.arguments):
@@ -224,6 +234,9 @@ class InlineTranslator:
             return [stm]
 
         if agg.function not in (AggregateFunction.Count, AggregateFunction.Sum, AggregateFunction.SumPlus):
+            return [stm]
+        # #sum+ ignores negative weights, the objective would count them
+        if agg.function == AggregateFunction.SumPlus and not self._nonnegative_weights(agg):
             return [stm]
         agga = AggAnalytics(agg)
         # only one equality
